@@ -446,6 +446,15 @@ def patterns(seed, tier):
     return pats, g, h
 
 
+def two_gate_patterns(seed):
+    """Every ordered pair over a single-gate alphabet: the two-gates-on-one-qubit branch of the trimming rules, exhaustively."""
+    d = runner.seed_delta(seed)
+    g, h = round(0.4 + 0.3 * d, 6), round(0.3 + 0.3 * d, 6)
+    single = {"X": ("X", ""), "Y": ("Y", ""), "Z": ("Z", ""), "H": ("H", ""), "RXpi": ("RX", PI), "RX": ("RX", h),
+              "RX2pi": ("RX", 2 * PI), "RYpi": ("RY", PI), "RY": ("RY", h), "RZ": ("RZ", g), "RZs": ("RZ", "s"), "S": ("S", "")}
+    return {f"{a}.{b}": [single[a], single[b]] for a in single for b in single}
+
+
 def ent_blocks(seed):
     d = runner.seed_delta(seed)
     a, b = round(0.3 + 0.3 * d, 6), round(0.7 + 0.2 * d, 6)
@@ -662,6 +671,21 @@ def trim_circuits(sh):
     val = round(0.9 + runner.seed_delta(sh["seed"]), 6)
     names = list(pats)
     base = {"nq": sh["nq"], "subst": val, "seed": sh["seed"], "tier": sh["tier"]}
+    if sh["kind"] == "trim2":
+        tp = two_gate_patterns(sh["seed"])
+        allp = dict(pats, **tp)
+        others = ["idle", "X", "RX"]
+        for i, nm in enumerate(tp):
+            if i % sh["nparts"] != sh["part"]:
+                continue
+            for pos in range(3):
+                for o1, o2 in itertools.product(others, repeat=2):
+                    trip = [o1, o2]
+                    trip.insert(pos, nm)
+                    if pos > 0 and (o1, o2) != ("idle", "X"):
+                        continue      # the two-gate pattern on qubits 1 and 2 with one fixed environment
+                    yield dict(base, word=build_word(allp, trip, "layer"), names=trip, order="layer")
+        return
     if sh["kind"] == "trim":
         for n1, n2 in itertools.product(names, repeat=2):
             trip = [sh["first"], n1, n2]
@@ -855,6 +879,8 @@ def shards(tier, seed):
         for first in pats:
             sh.append({"kind": "trim", "first": first, "nq": nq, "orders": orders, "seed": seed, "tier": tier, "w": 5})
         sh.append({"kind": "trim-ent", "nq": nq, "orders": orders, "seed": seed, "tier": tier, "w": 5})
+    for part in range(8):
+        sh.append({"kind": "trim2", "nq": None, "orders": ["layer"], "seed": seed, "tier": tier, "part": part, "nparts": 8, "w": 5})
     # (c)
     for n in (1, 2, 3, 4):
         for kind in ("commuting", "mixed"):
@@ -869,7 +895,7 @@ def shards(tier, seed):
 def run_shard(sh):
     if sh["kind"] == "taper":
         return run_taper_shard(sh)
-    if sh["kind"] in ("trim", "trim-ent"):
+    if sh["kind"] in ("trim", "trim-ent", "trim2"):
         return run_trim_shard(sh)
     if sh["kind"] == "frob":
         return run_frob_shard(sh)
